@@ -31,7 +31,7 @@ LEVEL_NOTE = ("Trusted: Lean kernel (standard axioms); np.linalg.svd specificati
 LEAN_TARGETS = ["QclibModel.Props.C07"]
 DRIVER = "Drivers/C07.lean"
 THEOREMS = ["Qclib.C07_rank_rule", "Qclib.C07_fidelity", "Qclib.C07_exact_when_full", "Qclib.C07_assembly",
-            "Qclib.C07_placement"]
+            "Qclib.C07_placement", "Qclib.C07_optimal_rank1", "Qclib.C07_optimal", "Qclib.C07_optimal_state"]
 TRUSTED = [
     "np.linalg.svd specification (M = U diag(s) Vh, orthonormal factors, s sorted non-increasing >= 0) - hypothesis of C07_fidelity / C07_exact_when_full",
     "the encoders chosen by _encode (qclib.isometry.decompose, qclib.unitary.unitary, nested LowRankInitialize) implement the given matrix on |0..0> resp. as a unitary (properties C01-C03), and qiskit's compose / reverse_bits / Statevector little-endian conventions - validated end-to-end by the Statevector oracle each run",
@@ -230,12 +230,18 @@ def eval_case(task):
     from qclib.state_preparation import LowRankInitialize
     from props import c09
     n, part, lr, iso, uni = task["n"], task["partition"], task["lr"], task["iso"], task["uni"]
+    if task.get("rsvd_seed") is not None:
+        # randomized_svd draws from a module-level unseeded generator: make the case a function of VERIF_SEED
+        import qclib.entanglement as _ent
+        _ent._rng = np.random.default_rng(task["rsvd_seed"])
+        np.random.seed(task["rsvd_seed"] % (2 ** 32))
     v = np.array(task["re"]) + 1j * np.array(task["im"])
     if task.get("real"):
         v = np.array(task["re"])
     mref = c09.ref_sep(n, np.asarray(v, dtype=complex), sorted(part))
     uu, ss, vv = np.linalg.svd(mref, full_matrices=False)
-    if any(c09.BAND[0] <= x <= c09.BAND[1] for x in ss):
+    band = task.get("band") or c09.BAND
+    if any(band[0] <= x <= band[1] for x in ss):
         return task["key"], None, {"skipped": True}
     eff = int((ss > 1e-7).sum())
     want = c09.clp2(lr if 0 < lr < eff else eff)
@@ -315,7 +321,7 @@ def build_opts(task):
     return opts
 
 
-def make_task(name, n, part, v, lr, iso, uni, mode=None, svd=None, label=None, entry=None):
+def make_task(name, n, part, v, lr, iso, uni, mode=None, svd=None, label=None, entry=None, rsvd_seed=None, band=None):
     import framework
     v = np.asarray(v)
     extra = "".join(f":{t}" for t in (mode and "opts=" + mode, svd and "svd=" + svd, label is not None and "label",
@@ -323,10 +329,12 @@ def make_task(name, n, part, v, lr, iso, uni, mode=None, svd=None, label=None, e
     return {"repo": framework.REPO, "family": name, "n": n, "partition": [int(a) for a in part], "lr": int(lr),
             "iso": iso, "uni": uni, "re": [float(x) for x in np.real(v)], "im": [float(x) for x in np.imag(v)],
             "real": bool(np.isrealobj(v)), "mode": mode, "svd": svd, "label": label, "entry": entry,
+            "rsvd_seed": rsvd_seed, "band": None if band is None else list(band),
             "key": f"lowrank:{name}:n={n}:P={','.join(map(str, part))}:lr={lr}:{iso}/{uni}{extra}"}
 
 
-REPLAY_FIELDS = ("family", "n", "partition", "lr", "iso", "uni", "re", "im", "real", "mode", "svd", "label", "entry")
+REPLAY_FIELDS = ("family", "n", "partition", "lr", "iso", "uni", "re", "im", "real", "mode", "svd", "label", "entry", "rsvd_seed",
+                 "band")
 
 
 def report_finding(ctx, key, detail, rep):
@@ -582,6 +590,115 @@ def gen_branch_tasks(ctx):
     return tasks
 
 
+# ---------------------------------------------------------------------------------------------
+# boundary values: every conjunct of the SVD-routine switch of schmidt_decomposition as LowRankInitialize reaches it
+# (svd='auto' and lr == 1 and n >= 14 and len(partition) > round(n/2.5)), the 1e-7 rank cut from both sides, n = 1
+# ---------------------------------------------------------------------------------------------
+
+NARROW_BAND = (5e-8, 2e-7)
+
+
+def flat_spectrum(m):
+    """m Schmidt coefficients without a dominant one (largest squared weight ~ 2/m) but with a clear gap between the first
+    two, so that the rank-1 truncation is unique: an APPROXIMATE rank-1 SVD (randomized, rank + 12 < m samples) is visibly
+    sub-optimal on it, the exact one is not."""
+    return [1.0] + [float(x) for x in np.linspace(0.85, 0.5, m - 1)]
+
+
+def run_tie_boundaries(ctx):
+    from props import c09
+    rng = ctx.nprng()
+    import qclib.entanglement as ent
+    ent._rng = np.random.default_rng(ctx.rng.getrandbits(63))
+    spec8 = [0.7, 0.45, 0.35, 0.25, 0.2, 0.15, 0.1, 0.08]
+    # plan (rank, ebits, registers, encoder kinds) at n = 13 / 14 / 15, partition size bound-1 / bound / bound+1, lr = 0 / 1 / 2 / 3
+    for n in (13, 14, 15):
+        b = round(n / 2.5)
+        for k in (b - 1, b, b + 1):
+            part = sorted(ctx.rng.sample(range(n), k))
+            v = c09.with_spectrum(rng, n, part, spec8)
+            for lr in (0, 1, 2, 3):
+                tie_plan(ctx, v, n, part, lr, "ccd", "qsd")
+                ctx.count(f"boundary:tie:svd-switch:n={n}:len-bound={k - b:+d}:lr={lr}")
+    # the 1e-7 rank cut from both sides: the plan must count a coefficient of 3e-7 and drop one of 3.3e-8
+    for n, part in ((3, [1]), (4, [0, 2]), (5, [1, 4]), (6, [0, 2, 5])):
+        mind = min(2 ** len(part), 2 ** (n - len(part)))
+        for name, tail in (("above", 3e-7), ("below", 3.3e-8)):
+            spec = [0.9, tail] if mind < 4 else [0.9, 0.4, tail]
+            v = c09.with_spectrum(rng, n, part, spec)
+            for lr in range(0, len(spec) + 2):
+                tie_plan(ctx, v, n, part, lr, *SCHEMES[lr % 2])
+                ctx.count("boundary:tie:sv-cut:" + name)
+
+
+def gen_boundary_tasks(ctx):
+    from props import c09
+    rng = ctx.nprng()
+    tasks = []
+
+    def seed():
+        return ctx.rng.randrange(2 ** 31)
+
+    def add(name, n, part, spec, lr, tag, **kw):
+        v = c09.with_spectrum(rng, n, sorted(part), spec)
+        tasks.append(make_task(name, n, part, v, lr, "ccd", "qsd", rsvd_seed=seed(), **kw))
+        ctx.count("boundary:" + tag)
+
+    # `n_qubits >= 14` with the other conjuncts true (lr = 1, more than round(n/2.5) partition qubits): below 14 the exact SVD
+    # must be used, i.e. the fidelity is the largest squared coefficient also when there are more than 13 of them.  The
+    # prepared state is a product of two states of <= 7 qubits, so the Statevector stays cheap.
+    for n in ((8, 10, 12, 13) if ctx.quick else (8, 9, 10, 11, 12, 13)):
+        k = round(n / 2.5) + 1
+        part = ctx.rng.sample(range(n), k)
+        m = min(2 ** k, 2 ** (n - k), 24)
+        add(f"flat{m}", n, part, flat_spectrum(m), 1, f"n-conjunct:n={n}:len={k}:lr=1:coeffs={m}")
+    for n in (10, 13):
+        k = round(n / 2.5)
+        part = ctx.rng.sample(range(n), k)
+        m = min(2 ** k, 24)
+        add(f"flat{m}", n, part, flat_spectrum(m), 1, f"n-conjunct:n={n}:len={k}(at-bound):lr=1:coeffs={m}")
+    # `len(partition) > round(n/2.5)` at n = 14, 15: AT the bound the exact SVD is used (any number of coefficients); above
+    # it the randomized routine, which is exact up to rank + 12 = 13 coefficients (more: known finding K-C07-2, fixed probe)
+    for n in (14, 15):
+        b = round(n / 2.5)
+        add("flat24", n, ctx.rng.sample(range(n), b), flat_spectrum(24), 1, f"len-conjunct:n={n}:len={b}(at-bound):lr=1:coeffs=24")
+        add("flat13", n, ctx.rng.sample(range(n), b + 1), flat_spectrum(13), 1, f"len-conjunct:n={n}:len={b + 1}(above):lr=1:coeffs=13")
+    # `svd == 'auto'`: svd='regular' named explicitly at the live point
+    add("flat24", 14, ctx.rng.sample(range(14), 7), flat_spectrum(24), 1, "svd-option:regular:n=14:len=7:lr=1:coeffs=24", svd="regular")
+    # `rank == 1`: lr = 0 and lr = 2 at the live point go to the exact SVD
+    part = ctx.rng.sample(range(14), 7)
+    add("spectrum2", 14, part, [0.8, 0.6], 0, "rank-conjunct:n=14:len=7:lr=0")
+    add("flat24", 14, part, flat_spectrum(24), 2, "rank-conjunct:n=14:len=7:lr=2:coeffs=24")
+    # the 1e-7 cut, below: the dropped coefficient (3.3e-8) is within the comparison tolerance
+    for n, part in ((3, [1]), (4, [0, 2]), (5, [1, 4])):
+        mind = min(2 ** len(part), 2 ** (n - len(part)))
+        spec = [0.9, 3.3e-8] if mind < 4 else [0.9, 0.4, 3.3e-8]
+        for lr in range(0, len(spec) + 1):
+            add("edge-tail-below", n, part, spec, lr, "sv-cut:below(3.3e-8)", band=NARROW_BAND)
+    return tasks
+
+
+def probe_one_qubit(ctx):
+    """`self.num_qubits < 2` (lowrank.py:115): one below the property's n >= 2 - the initializer hands over to TopDownInitialize."""
+    from qiskit.quantum_info import Statevector
+    from qclib.state_preparation import LowRankInitialize
+    from props import c09
+    rng = ctx.nprng()
+    for i, v in enumerate((c09.rand_unit(rng, 2), c09.rand_unit(rng, 2, real=True), np.array([0.0, 1.0]), np.array([1.0, 0.0]))):
+        key = f"lowrank:n=1:{i}"
+        try:
+            sv = Statevector(LowRankInitialize(v, opt_params={"lr": i % 2}).definition).data
+        except Exception as ex:
+            ctx.fail(key, f"raised {type(ex).__name__}: {ex}", {"call": "LowRankInitialize(v).definition", "vector": [complex(x) for x in v]})
+            continue
+        err = float(np.abs(sv - v).max())
+        ctx.count("boundary:n=1")
+        if err > 1e-7:
+            ctx.fail(key, f"one-qubit state off by {err:.2e}", {"call": "LowRankInitialize(v).definition", "vector": [str(complex(x)) for x in v]})
+        else:
+            ctx.ok(key, nontrivial=False)
+
+
 def probe_randomized_nested(ctx):
     """Observation outside C07's quantifier (it ranges over partitions, ranks and the two scheme options, not over `svd`):
     with svd='randomized' named explicitly every nested LowRankInitialize built by _encode inherits svd='randomized' with
@@ -609,11 +726,19 @@ def run(ctx):
     from props import c09
     run_tie(ctx)
     run_tie_branches(ctx)
+    run_tie_boundaries(ctx)
     if ctx.quick:
         tasks = gen_tasks(ctx, nmax=6, nfull=5, per_n_budget=8)
     else:
         tasks = gen_tasks(ctx, nmax=7, nfull=6, per_n_budget=30)
-    run_tasks(ctx, tasks + gen_branch_tasks(ctx))
+    run_tasks(ctx, gen_boundary_tasks(ctx) + tasks + gen_branch_tasks(ctx))
+    probe_one_qubit(ctx)
+    ctx.notes.append("boundary cases: each conjunct of the randomized-SVD switch with the others true - n = 8..13 / 14 / 15 with lr = 1 and a "
+                     "partition just above round(n/2.5) on states with 16-24 comparable Schmidt coefficients (an approximate rank-1 SVD "
+                     "is visibly sub-optimal there; below n = 14 the fidelity must be the largest squared coefficient), partition AT the "
+                     "bound at n = 14, 15, svd='regular', lr = 0 / 2; above the bound at n >= 14 only <= 13 coefficients (more: known "
+                     f"finding K-C07-2); rank cut 1e-7: plans tied at 3e-7 / 3.3e-8, oracle at 3.3e-8 with excluded band {NARROW_BAND}; "
+                     "randomized_svd's generator seeded per case from VERIF_SEED")
     probe_randomized_nested(ctx)
     probe_auto_randomized(ctx)
     probe_unsorted(ctx)
@@ -647,5 +772,5 @@ def replay(ctx, payload):
         return
     v = np.array(r["re"]) + (0 if r.get("real") else 1j * np.array(r["im"]))
     t = make_task(r.get("family", "replay"), r["n"], r["partition"], v, r["lr"], r["iso"], r["uni"], mode=r.get("mode"),
-                  svd=r.get("svd"), label=r.get("label"), entry=r.get("entry"))
+                  svd=r.get("svd"), label=r.get("label"), entry=r.get("entry"), rsvd_seed=r.get("rsvd_seed"), band=r.get("band"))
     run_tasks(ctx, [t])
